@@ -10,10 +10,14 @@
     returns `fuelOut` with the fuel `fuelFor |items| = 8·|items| + 64` (and `exprFuel` for the
     embedded expression parser): every loop of parse.go consumes a real token per iteration
     or stops — including on the zero items of the closed channel.  Measure: `mu`, the number
-    of tokens ahead (backed-up ones included) whose type is not `tInvalid`; each function
-    needs at most `8·mu + 20` fuel (Lemmas/ParserExprSafe, FileParserLoops, FileParserBlocks).
-  * `parse_err_at_token` — an error `err pos` is positioned at a token of the list or at the
-    zero item (position 0): `t.errorf` only ever reads `t.token[0]`/`t.token[1]`.
+    of tokens ahead (backed-up ones included) whose type is not `tInvalid`, `tEOF` or `tError`;
+    each function needs at most `8·mu + 20` fuel (Lemmas/ParserExprSafe, FileParserLoops,
+    FileParserBlocks).
+  * `parse_err_at_token` — on ANY token list an error `err pos` is positioned at a token of the
+    list or at the zero item (position 0): `t.errorf` only ever reads `t.token[0]`/`t.token[1]`.
+  * `parse_err_at_lexed_token`, `lex_shape`, `parse_source_err_at_token` — on a token list of
+    the lexer's shape (ends with its only EOF / Error item, no invalid item) the position is
+    that of a token of the list, never 0:0 of the zero item; the lexer's lists have that shape.
   * `parse_no_panic_of_wf`, `lex_wf`, `parse_source_no_panic` — no Go runtime panic: the parser
     does not panic on tokens whose values are long enough for its slices, the lexer only sends
     such tokens, hence lexer ∘ parser never panics, on any input.
@@ -29,19 +33,29 @@ open SoyVerif SoyVerif.Model SoyVerif.Model.Parser SoyVerif.Model.FileParser Soy
 def LexWF : Prop :=
   ∀ (str : Bytes) (is : List Item), Lex.lexAll str true = .items is → ∀ it ∈ is, WFItem it
 
-/-- the run of the file parser's top loop satisfies the program logic's judgement; under `EL`
-    ("the EOF item is only ever the last item") a successful run has received every item -/
-theorem top_safe (pf : Bytes → Option UInt64) (AP EL : Prop) (S : Item → Prop) (hz : S Item.zero) (items : List Item)
+/-- the shape the lexer gives a token stream (`lex_shape`): not empty, ends with an EOF or
+    Error item, and no EOF, Error or invalid item before that -/
+def LexShape (items : List Item) : Prop :=
+  items ≠ [] ∧ (∀ x ∈ items.dropLast, real x = 1) ∧ (∀ x, items.getLast? = some x → valid x ∧ real x = 0)
+
+/-- the run of the file parser's top loop satisfies the program logic's judgement; under `EL.eof`
+    ("the EOF item is only ever the last item") a successful run has received every item;
+    under `EL.lex` (`LexShape`) no error is positioned at the zero item of the closed channel -/
+theorem top_safe (pf : Bytes → Option UInt64) (AP : Prop) (EL : Lvl) (S : Item → Prop) (hz : S Item.zero) (items : List Item)
     (hs : ∀ x ∈ items, S x) (hwf : ∀ it, S it → AP ∨ WFItem it)
     (hlex : ∀ (str : Bytes) (is : List Item), Lex.lexAll str true = .items is → ∀ it ∈ is, AP ∨ WFItem it)
-    (hel : EL → ∀ x ∈ items.dropLast, x.typ ≠ .tEOF) :
-    FSafe AP S (itemListLoop pf (exprFuel items) (FileParser.fuelFor items.length) [.tEOF] none .nil)
-      { p := Parser.initState items } (fun r st' => listOK r ∧ (EL → st'.p.rest = [])) := by
+    (hel : EL.eof → ∀ x ∈ items.dropLast, x.typ ≠ .tEOF) (hlx : EL.lex → LexShape items) :
+    FSafe AP EL S (itemListLoop pf (exprFuel items) (FileParser.fuelFor items.length) [.tEOF] none .nil)
+      { p := Parser.initState items } (fun r st' => listOK r ∧ (EL.eof → st'.p.rest = [])) := by
   have hmu := mu_init items
-  have h := (fileSpecs_all AP EL S pf (exprFuel items) items.length hz
-      (by unfold exprFuel Parser.fuelFor; omega) hwf hlex (FileParser.fuelFor items.length)).itemListLoop
-      [.tEOF] none .nil { p := Parser.initState items } childrenOK_nil (inv_init S items hz hs hel) hmu
-      (by unfold FileParser.fuelFor; show 8 * mu (Parser.initState items) + 20 ≤ _; omega)
+  have ih := fileSpecs_all AP EL S pf (exprFuel items) items.length hz
+      (by unfold exprFuel Parser.fuelFor; omega) hwf hlex (8 * items.length + 63)
+  have h := itemListLoop_ok0 AP EL S pf (exprFuel items) items.length hz
+      (by unfold exprFuel Parser.fuelFor; omega) hwf hlex ih
+      [.tEOF] none .nil { p := Parser.initState items } childrenOK_nil (inv_init S items hz hs hel hlx) hmu
+      (by show 8 * mu (Parser.initState items) + 20 ≤ _; omega)
+  have hfu : FileParser.fuelFor items.length = 8 * items.length + 63 + 1 := rfl
+  rw [hfu]
   apply h.mono
   intro r st' ⟨hl, hi, hpc, _, hu⟩
   refine ⟨hl, fun hEL => ?_⟩
@@ -55,8 +69,8 @@ theorem top_safe (pf : Bytes → Option UInt64) (AP EL : Prop) (S : Item → Pro
 /-- the file parser terminates on every token list -/
 theorem parse_total (pf : Bytes → Option UInt64) (items : List Item) :
     parseFile pf (exprFuel items) items ≠ .error .fuelOut := by
-  have h := top_safe pf True False (fun _ => True) trivial items (fun _ _ => trivial)
-    (fun _ _ => Or.inl trivial) (fun _ _ _ _ _ => Or.inl trivial) (fun h => absurd h id)
+  have h := top_safe pf True ⟨False, False⟩ (fun _ => True) trivial items (fun _ _ => trivial)
+    (fun _ _ => Or.inl trivial) (fun _ _ _ _ _ => Or.inl trivial) (fun h => absurd h id) (fun h => absurd h id)
   unfold FSafe at h
   unfold parseFile
   simp only [StateT.run]
@@ -74,8 +88,8 @@ theorem parse_total (pf : Bytes → Option UInt64) (items : List Item) :
 theorem parse_err_at_token (pf : Bytes → Option UInt64) (items : List Item) (pos : Nat)
     (h : parseFile pf (exprFuel items) items = .error (.err pos)) :
     pos = 0 ∨ ∃ it ∈ items, it.pos = pos := by
-  have hsafe := top_safe pf True False (fun it => it ∈ items ∨ it = Item.zero) (Or.inr rfl) items (fun x hx => Or.inl hx)
-    (fun _ _ => Or.inl trivial) (fun _ _ _ _ _ => Or.inl trivial) (fun h => absurd h id)
+  have hsafe := top_safe pf True ⟨False, False⟩ (fun it => it ∈ items ∨ it = Item.zero) (Or.inr rfl) items (fun x hx => Or.inl hx)
+    (fun _ _ => Or.inl trivial) (fun _ _ _ _ _ => Or.inl trivial) (fun h => absurd h id) (fun h => absurd h id)
   unfold FSafe at hsafe
   unfold parseFile at h
   simp only [StateT.run] at h
@@ -86,10 +100,35 @@ theorem parse_err_at_token (pf : Bytes → Option UInt64) (items : List Item) (p
     rw [he] at hsafe
     simp only [Except.error.injEq] at h
     subst h
-    obtain ⟨it, hit, hp⟩ := hsafe
+    obtain ⟨it, hit, hp⟩ := hsafe.1
     rcases hit with hm | hz
     · exact Or.inr ⟨it, hm, hp⟩
     · subst hz; exact Or.inl hp.symm
+
+/-- on a token stream of the lexer's shape every parse error is positioned at one of ITS
+    tokens — never at the zero item (position 0) that the closed channel yields: the parser
+    stops at the EOF / Error item that ends the stream, and `unexpected` reports the position
+    of the token it was given, not that of a look-ahead read since (/repo 518abbf) -/
+theorem parse_err_at_lexed_token (pf : Bytes → Option UInt64) (items : List Item) (pos : Nat)
+    (hshape : LexShape items)
+    (h : parseFile pf (exprFuel items) items = .error (.err pos)) :
+    ∃ it ∈ items, it.pos = pos := by
+  have hsafe := top_safe pf True ⟨False, True⟩ (fun it => it ∈ items ∨ it = Item.zero) (Or.inr rfl) items (fun x hx => Or.inl hx)
+    (fun _ _ => Or.inl trivial) (fun _ _ _ _ _ => Or.inl trivial) (fun h => absurd h id) (fun _ => hshape)
+  unfold FSafe at hsafe
+  unfold parseFile at h
+  simp only [StateT.run] at h
+  split at h
+  · exact absurd h (by simp)
+  · exact absurd h (by simp)
+  · rename_i e he
+    rw [he] at hsafe
+    simp only [Except.error.injEq] at h
+    subst h
+    obtain ⟨it, hit, hv, hp⟩ := hsafe.2 trivial
+    rcases hit with hm | hz
+    · exact ⟨it, hm, hp⟩
+    · subst hz; exact absurd rfl hv
 
 /-- no Go runtime panic in the file parser on well-formed tokens: the two-token array is never
     indexed out of range, no `tok.val[1:]` / `tok.val[2:]` slices an empty value, `rawtext`
@@ -97,12 +136,12 @@ theorem parse_err_at_token (pf : Bytes → Option UInt64) (items : List Item) (p
 theorem parse_no_panic_of_wf (pf : Bytes → Option UInt64) (items : List Item)
     (hwf : ∀ it ∈ items, WFItem it) (hlex : LexWF) :
     parseFile pf (exprFuel items) items ≠ .error .panic := by
-  have h := top_safe pf False False (fun it => it ∈ items ∨ it = Item.zero) (Or.inr rfl) items (fun x hx => Or.inl hx)
+  have h := top_safe pf False ⟨False, False⟩ (fun it => it ∈ items ∨ it = Item.zero) (Or.inr rfl) items (fun x hx => Or.inl hx)
     (fun it hit => by
       rcases hit with h | h
       · exact Or.inr (hwf it h)
       · subst h; exact Or.inr wf_zero)
-    (fun str is hl it hit => Or.inr (hlex str is hl it hit)) (fun h => absurd h id)
+    (fun str is hl it hit => Or.inr (hlex str is hl it hit)) (fun h => absurd h id) (fun h => absurd h id)
   unfold FSafe at h
   unfold parseFile
   simp only [StateT.run]
@@ -174,8 +213,30 @@ theorem lex_eof_last (input : Bytes) (exprMode : Bool) (is : List Item)
   subst hl
   intro it hit
   have := hok it hit
-  simp only [Lex.itemOK, Bool.and_eq_true, bne_iff_ne, ne_eq] at this
-  exact this.2
+  simp only [Lex.itemOK, Lex.notEnd, Bool.and_eq_true, bne_iff_ne, ne_eq] at this
+  exact this.2.1.1
+
+/-- the token stream of the lexer has the shape `LexShape`: it is not empty, its last item is
+    the EOF item or an Error item, and no item before that is an EOF, Error or invalid item -/
+theorem lex_shape (input : Bytes) (exprMode : Bool) (is : List Item)
+    (h : Lex.lexAll input exprMode = .items is) : LexShape is := by
+  obtain ⟨is', hl, ⟨last, hlast, hty⟩, _, hok⟩ := lex_items input exprMode
+  rw [h] at hl
+  simp only [Lex.LexResult.items.injEq] at hl
+  subst hl
+  refine ⟨?_, ?_, ?_⟩
+  · intro he; rw [he] at hlast; simp at hlast
+  · intro it hit
+    have := hok it hit
+    simp only [Lex.itemOK, Lex.notEnd, Bool.and_eq_true, bne_iff_ne, ne_eq] at this
+    unfold real midT
+    simp [this.2.1.1, this.2.1.2, this.2.2]
+  · intro x hx
+    rw [hlast] at hx
+    simp only [Option.some.injEq] at hx
+    subst hx
+    unfold valid real midT
+    rcases hty with h | h <;> simp [h]
 
 theorem lexWF : LexWF := fun str is h => lex_wf str true is h
 
@@ -194,5 +255,16 @@ theorem parse_source_total (pf : Bytes → Option UInt64) (input : Bytes) :
   obtain ⟨is, hl, _⟩ := lex_items input false
   rw [hl]
   exact parse_total pf is
+
+/-- lexer model ∘ parser model: every error is positioned at a token of the lexer — a parser
+    error at the token `unexpected` was given or at the parser's current token, a lexical
+    error at the Error item; never at the zero item that the closed channel yields -/
+theorem parse_source_err_at_token (pf : Bytes → Option UInt64) (input : Bytes) (pos : Nat)
+    (h : parseSource pf input = .error (.err pos)) :
+    ∃ is, Lex.lexAll input false = .items is ∧ ∃ it ∈ is, it.pos = pos := by
+  unfold parseSource at h
+  obtain ⟨is, hl, _⟩ := lex_items input false
+  rw [hl] at h
+  exact ⟨is, hl, parse_err_at_lexed_token pf is pos (lex_shape input false is hl) h⟩
 
 end SoyVerif.Props.C05
